@@ -308,7 +308,8 @@ def judge_reenc(ax, acc, ctor, first, second, pf=None):
     acc.case(nontrivial=("reenc", ctor, first, second), outcome=("reenc", cls[first], cls[second], ok))
     if not ok:
         if want_fresh is not None and want_fresh != want:
-            key = "%s:pack" % cls[second].split("+")[0]          # not a history effect: the fresh encoding is already wrong
+            # not a history effect: the fresh object is already wrong (its word -> pack, only its string -> decode)
+            key = "%s:%s" % (cls[second].split("+")[0], "decode" if want_fresh[0] == want[0] else "pack")
         else:
             key = "reencode:%s:after:%s" % (cls[second], cls[first])
         w = {"history": [["reenc", ctor, first, second]]}
